@@ -5,6 +5,7 @@ package syncengine
 
 import (
 	"fmt"
+	"sort"
 
 	"github.com/NethermindEth/juno/core"
 	"github.com/NethermindEth/juno/core/felt"
@@ -43,6 +44,117 @@ type world struct {
 	nextTag  int
 	tip      *chainkit.Node // twin node holding the last version
 	shapes   map[int]string // scenario: shape of a tag, overriding the default
+	classes  []*wclass      // every class of this world; classes[i].id == i+1
+	byClass  map[felt.Felt]*wclass
+}
+
+// ClassSpec puts a class into the chain content (the `ment` of spec/sync/Sync.tla): the blocks with the
+// given tags MENTION it. Since a tag determines its ancestry it also determines what the mention is: the
+// first mention on a chain DECLARES the class (Cairo-0: DeclaredV0Classes, Sierra: DeclaredV1Classes), every
+// later one USES it (a contract of that class is deployed at a fresh address). Two branches may so declare
+// the same class hash at different heights, a reorg drops the declaring block, and the new branch declares
+// the class again, never mentions it, or merely uses it.
+//
+// Kind "implicit" is the legacy form: a Cairo-0 class that is never declared - its first mention is already a
+// deployed contract (pre-0.9 DEPLOY transactions), so only the data source's pass over the classes of DEPLOYED
+// contracts brings its definition. As coded its definition survives a revert of the block that introduced it
+// (State.Revert only removes classes of the declared lists): such classes are only allowed in scenarios
+// whose source never reorgs.
+type ClassSpec struct {
+	Kind string `json:"kind"` // cairo0 | sierra | implicit
+	Tags []int  `json:"tags"`
+}
+
+type wclass struct {
+	id       int
+	sierra   bool
+	implicit bool
+	hash     felt.Felt
+	casm     felt.Felt
+	def      core.ClassDefinition
+	fp       string       // fingerprint of the definition (see classFingerprint)
+	ment     map[int]bool // tags of the blocks mentioning it
+}
+
+func (w *world) addClass(sierra bool) *wclass {
+	c := &wclass{id: len(w.classes) + 1, sierra: sierra, ment: map[int]bool{}}
+	if sierra {
+		h, c1, _, def := w.gen.SierraClass()
+		c.hash, c.casm, c.def = h, c1, def
+	} else {
+		c.hash, c.def = w.gen.Cairo0Class()
+	}
+	c.fp = classFingerprint(c.def)
+	w.classes = append(w.classes, c)
+	w.byClass[c.hash] = c
+	return c
+}
+
+// classFingerprint identifies a definition by what the generator made unique in it.
+func classFingerprint(def core.ClassDefinition) string {
+	switch c := def.(type) {
+	case *core.DeprecatedCairoClass:
+		if len(c.Externals) == 1 && c.Externals[0].Selector != nil && c.Externals[0].Offset != nil {
+			return "cairo0:" + c.Externals[0].Selector.String() + ":" + c.Externals[0].Offset.String()
+		}
+		return fmt.Sprintf("cairo0:?%d", len(c.Externals))
+	case *core.SierraClass:
+		h, err := c.Hash()
+		if err != nil {
+			return "sierra:?" + err.Error()
+		}
+		return "sierra:" + h.String()
+	}
+	return fmt.Sprintf("%T", def)
+}
+
+// mentions: ids of the classes block `tag` mentions, ascending.
+func (w *world) mentions(tag int) []int {
+	out := []int{}
+	for _, c := range w.classes {
+		if c.ment[tag] {
+			out = append(out, c.id)
+		}
+	}
+	return out
+}
+
+// expectedDefs is ExpectedDefs of Sync.tla: class id -> height of the first block of `chain` mentioning it.
+func (w *world) expectedDefs(chain []int) map[int]int {
+	out := map[int]int{}
+	for _, c := range w.classes {
+		for h, t := range chain {
+			if c.ment[t] {
+				out[c.id] = h
+				break
+			}
+		}
+	}
+	return out
+}
+
+// mentTable / sierraIDs: the class content as the Reset event carries it.
+func (w *world) mentTable() [][]int {
+	out := make([][]int, len(w.classes))
+	for i, c := range w.classes {
+		ts := []int{}
+		for t := range c.ment {
+			ts = append(ts, t)
+		}
+		sort.Ints(ts)
+		out[i] = ts
+	}
+	return out
+}
+
+func (w *world) sierraIDs() []int {
+	out := []int{}
+	for _, c := range w.classes {
+		if c.sierra {
+			out = append(out, c.id)
+		}
+	}
+	return out
 }
 
 // Block shapes: WHICH PARTS of a block are populated (the Shapes of spec/chain/BlockVerify.tla; the
@@ -80,7 +192,7 @@ func defaultShape(tag int, height uint64) string {
 
 func (w *world) emptyDiff(tag int) bool {
 	sh := w.blocks[tag].shape
-	return w.blocks[tag].height > 0 && (sh == "empty" || sh == "emptydiff")
+	return w.blocks[tag].height > 0 && (sh == "empty" || sh == "emptydiff") && len(w.mentions(tag)) == 0
 }
 
 var (
@@ -89,10 +201,27 @@ var (
 	addrs    = []uint64{0x100, 0x101, 0x102}
 )
 
-func newWorld(seed int64, newState bool, initLen int, plan []SrcStep, shapes map[string]string) (*world, error) {
+func newWorld(seed int64, newState bool, initLen int, plan []SrcStep, shapes map[string]string, pool []ClassSpec) (*world, error) {
 	w := &world{
 		newState: newState, gen: chainkit.NewGen(seed), blocks: map[int]*block{},
 		byHash: map[felt.Felt]int{}, nextTag: 1, digests: map[int]string{}, shapes: map[int]string{},
+		byClass: map[felt.Felt]*wclass{},
+	}
+	for _, cs := range pool {
+		if cs.Kind != "cairo0" && cs.Kind != "sierra" && cs.Kind != "implicit" {
+			return nil, fmt.Errorf("unknown class kind %q", cs.Kind)
+		}
+		c := w.addClass(cs.Kind == "sierra")
+		if c.implicit = cs.Kind == "implicit"; c.implicit {
+			for _, st := range plan {
+				if st.Drop > 0 {
+					return nil, fmt.Errorf("an implicitly declared class in a scenario with a reorg")
+				}
+			}
+		}
+		for _, t := range cs.Tags {
+			c.ment[t] = true
+		}
 	}
 	for k, v := range shapes {
 		var t int
@@ -111,7 +240,7 @@ func newWorld(seed int64, newState bool, initLen int, plan []SrcStep, shapes map
 	w.tip = chainkit.NewNode(nil, newState)
 	var chain []int
 	for i := 0; i < initLen; i++ {
-		b, err := w.appendBlock(w.tip)
+		b, err := w.appendBlock(w.tip, chain)
 		if err != nil {
 			return nil, err
 		}
@@ -134,7 +263,7 @@ func newWorld(seed int64, newState bool, initLen int, plan []SrcStep, shapes map
 			w.tip = n
 		}
 		for i := 0; i < st.Add; i++ {
-			b, err := w.appendBlock(w.tip)
+			b, err := w.appendBlock(w.tip, next)
 			if err != nil {
 				return nil, err
 			}
@@ -145,7 +274,8 @@ func newWorld(seed int64, newState bool, initLen int, plan []SrcStep, shapes map
 	return w, nil
 }
 
-func (w *world) appendBlock(n *chainkit.Node) (*block, error) {
+// appendBlock builds the next block on n, whose chain is `below` (tags).
+func (w *world) appendBlock(n *chainkit.Node, below []int) (*block, error) {
 	tag := w.nextTag
 	w.nextTag++
 	var (
@@ -159,11 +289,36 @@ func (w *world) appendBlock(n *chainkit.Node) (*block, error) {
 	d := chainkit.EmptyDiff()
 	classes := map[felt.Felt]core.ClassDefinition{}
 	if height == 0 {
-		ch, cls := w.gen.Cairo0Class()
-		d.DeclaredV0Classes = append(d.DeclaredV0Classes, &ch)
-		classes[ch] = cls
+		c := w.addClass(false)
+		c.ment[tag] = true
+		d.DeclaredV0Classes = append(d.DeclaredV0Classes, &c.hash)
+		classes[c.hash] = c.def
 		for _, a := range addrs {
-			d.DeployedContracts[*chainkit.F(a)] = &ch
+			d.DeployedContracts[*chainkit.F(a)] = &c.hash
+		}
+	}
+	// the classes of the scenario's pool this block mentions: declared when no block below mentions them, used
+	// (a contract of the class is deployed) otherwise
+	for _, c := range w.classes {
+		if !c.ment[tag] || (height == 0 && c.id == len(w.classes)) {
+			continue
+		}
+		first := true
+		for _, t := range below {
+			first = first && !c.ment[t]
+		}
+		switch {
+		case c.implicit && first:
+			d.DeployedContracts[*chainkit.F(uint64(0x10000 + tag*64 + c.id))] = &c.hash
+			classes[c.hash] = c.def
+		case !first:
+			d.DeployedContracts[*chainkit.F(uint64(0x10000 + tag*64 + c.id))] = &c.hash
+		case c.sierra:
+			d.DeclaredV1Classes[c.hash] = &c.casm
+			classes[c.hash] = c.def
+		default:
+			d.DeclaredV0Classes = append(d.DeclaredV0Classes, &c.hash)
+			classes[c.hash] = c.def
 		}
 	}
 	// shapes (see shapeNames): most blocks carry one transaction and one storage write
@@ -185,9 +340,10 @@ func (w *world) appendBlock(n *chainkit.Node) (*block, error) {
 	case "nonceonly":
 		d.Nonces[addr] = chainkit.F(uint64(tag))
 	case "declare":
-		ch, cls := w.gen.Cairo0Class()
-		d.DeclaredV0Classes = append(d.DeclaredV0Classes, &ch)
-		classes[ch] = cls
+		c := w.addClass(false)
+		c.ment[tag] = true
+		d.DeclaredV0Classes = append(d.DeclaredV0Classes, &c.hash)
+		classes[c.hash] = c.def
 	case "multi":
 		ntx = 3
 		fallthrough
@@ -411,7 +567,14 @@ func (w *world) committed(tag int, corr string) jsync.CommittedBlock {
 	default:
 		panic("unknown corruption " + corr)
 	}
-	return jsync.CommittedBlock{Block: blk, StateUpdate: &su, NewClasses: b.Classes, Persisted: make(chan error, 1)}
+	// the scripted DataSource hands over every class the block mentions (declared or used)
+	nc := map[felt.Felt]core.ClassDefinition{}
+	for _, c := range w.classes {
+		if c.ment[tag] {
+			nc[c.hash] = c.def
+		}
+	}
+	return jsync.CommittedBlock{Block: blk, StateUpdate: &su, NewClasses: nc, Persisted: make(chan error, 1)}
 }
 
 func (w *world) header(tag int) *core.Header {
